@@ -168,6 +168,15 @@ fn gen_cuts(r: &mut Rng, len: usize, st: &Structure) -> Vec<usize> {
             r.cuts(len, parts)
         }
     };
+    // planted look-alikes of a connection start: more often than not a cut exactly in front of one
+    for h in &st.hot {
+        if r.chance(2, 3) {
+            c.push(*h);
+            if r.chance(1, 3) {
+                c.push(*h + *r.pick(&[1usize, 9, 24, 25]));
+            }
+        }
+    }
     c.sort();
     c.dedup();
     c.retain(|x| *x >= 1 && *x < len);
